@@ -159,12 +159,13 @@ class Attribute:
     def count(self) -> Union[int, None]:
         """Return number of values of the attribute or None if value is not set (is None)."""
 
+        if isinstance(self._value, (list, tuple)):
+            # also for an attribute which is not declared multivalued: the count must match the values written
+            return len(self.flatten_list(self._value))
         if not self._multivalued:
             return 1
         if self._value is None:
             return None
-        if isinstance(self._value, (list, tuple)):
-            return len(self.flatten_list(self._value))
         return 1
 
     @property
